@@ -3,7 +3,8 @@
 stamps (enter, exit) on CLOCK_MONOTONIC in shared memory; afterwards no two calls may overlap.
 
 usage (stdio must be a tty):  c14_mp.py <fork|spawn|forkserver> <default|ctx> <lazy 0|1> <scale> <out.json>
-                                        [target|run|runsuper|after|failfirst] [pre 0|1]
+                                        [target|run|runsuper|after|failfirst|daemon|pool] [pre 0|1]
+  methods also: spawn+fork / forkserver+fork (children by the first, the grandchild by the second)
 
 * style `target`: children are `Process(target=…)`; `run`: a Process SUBCLASS overriding run() without
   calling super().run() (the classic way of subclassing); `runsuper`: run() calls super().run() first;
@@ -87,6 +88,8 @@ def make_process(P, args):
     """a child running `child(*args)`: by target, or by an overridden run()"""
     if STYLE in ("target", "after", "failfirst"):
         return P(target=child, args=args)
+    if STYLE == "daemon":
+        return P(target=child, args=args, daemon=True)
     for key, cls in SUBS.items():
         if cls.__mro__[1] is P:
             return cls(*args)
@@ -139,6 +142,19 @@ def loop(arr, slot, n):
         time.sleep(0.0005)
 
 
+POOL_ARR = None
+
+
+def _pool_init(arr):
+    global POOL_ARR
+    POOL_ARR = arr
+
+
+def _pool_loop(slot, n):
+    loop(POOL_ARR, slot, n)
+    time.sleep(0.05)   # keep the worker busy so that the other task goes to the other worker
+
+
 def child_after(arr, slot, n):
     """style `after`: the child is one contender (no threads of its own)"""
     loop(arr, slot, n)
@@ -149,17 +165,24 @@ def child(arr, slot, n, how, method, grand):
     # it must precede the start of the grandchild: a process that has not loaded term_image.utils
     # has nothing to hand over)
     get_synced()
-    ths = [threading.Thread(target=loop, args=(arr, slot + j, n)) for j in range(2)]
+    # one loop in a thread, the other one in the process's main thread (the thread that exists in a
+    # forked child right away)
+    ths = [threading.Thread(target=loop, args=(arr, slot, n))]
     for t in ths:
         t.start()
     g = None
+    if grand and STYLE in ("daemon", "pool"):
+        grand = False   # daemonic processes are not allowed to have children
     if grand:
         if method == "mixed":
             P = mp.get_context("spawn").Process
+        elif "+" in method:
+            P = mp.get_context(method.split("+")[1]).Process   # e.g. spawn child -> FORK grandchild
         else:
             P = mp.get_context(method).Process if how == "ctx" else mp.Process
         g = make_process(P, (arr, slot + 2, n, how, method, False))
         g.start()
+    loop(arr, slot + 1, n)
     for t in ths:
         t.join(12)
     if g:
@@ -177,6 +200,7 @@ def main():
     # style `after`: ONE child is started while nothing else runs, and only then the parent's threads
     # and the child contend (no call races with the start; the child is given as target=)
     after = STYLE == "after"
+    pool = STYLE == "pool"
     nchild = 1 if after else 2
     nslots = 3 + 2 * 2 + 2  # parent threads, 2 per child, grandchild's 2
     # (style `after`: slot 0-1 main thread, 1-2 … see below; every party writes into its own range)
@@ -185,6 +209,10 @@ def main():
         # second child: forkserver context — all must end up on one lock
         ctx = mp.get_context("spawn")
         P = None
+    elif "+" in method:
+        # children by the first method, the first child's grandchild by the second one
+        ctx = mp.get_context(method.split("+")[0])
+        P = ctx.Process
     elif how == "ctx":
         ctx = mp.get_context(method)
         P = ctx.Process
@@ -214,7 +242,7 @@ def main():
                     first = f"slot {s} entered {1000 * (end - e):.2f} ms before slot {who} left"
             if x > end:
                 end, who = x, s
-        expected = n * (6 if after else 3 + 2 * nchild + 2)
+        expected = n * (6 if after else 5 if pool else 3 + 2 * nchild + (0 if STYLE == "daemon" else 2))
         json.dump({"method": method, "how": how, "lazy": LAZY, "style": STYLE, "pre": PRE, "intervals": len(iv),
                    "expected": expected, "overlaps": overlaps, "first": first, "nested": nested,
                    "processes": 1 + nchild + (0 if after else 1),
@@ -245,7 +273,12 @@ def main():
             except NotPicklable:
                 pass
             time.sleep(SLEEP)
-    if after:
+    the_pool = None
+    if pool:
+        # two Pool workers (daemonic processes started by the pool) each run one loop
+        the_pool = ctx.Pool(2, initializer=_pool_init, initargs=(arr,))
+        results = [the_pool.apply_async(_pool_loop, (3 + j, n)) for j in range(2)]
+    elif after:
         # an empty child first (the very first start: the lock is migrated), then the contender
         first = Ps[0](target=time.sleep, args=(0,))
         first.start()
@@ -270,6 +303,13 @@ def main():
         p.join(15)
         if p.is_alive():
             stuck.append(p.name)
+    if the_pool is not None:
+        for r in results:
+            try:
+                r.get(20)
+            except Exception as e:  # noqa: BLE001
+                stuck.append(f"pool task: {type(e).__name__}: {e}")
+        the_pool.terminate()
     finish()
 
 
